@@ -3,6 +3,7 @@ package main
 import (
 	"fmt"
 	"go/token"
+	"go/types"
 	"regexp"
 	"sort"
 	"strings"
@@ -182,6 +183,8 @@ func checkC13(p *Prog, r *Report) {
 	r.assume("both functions decode with encoding/json into the same skeleton type; decode calls with the same argument terms yield the same values")
 	r.notCovered("value equality with full unmarshaling beyond the shared decode calls (C06 decides the decoders)")
 
+	r.rule("C13.add-cannot-fail: every error return of Type.AddAttr / Type.AddRel is guarded only by tests of an empty name, an empty target type, an invalid kind or a name already taken (the reasons a schema's own definition added once per key cannot meet); UnmarshalPartialResource discards these errors")
+	checkAddCannotFail(p, r)
 	full, part := p.Fn("UnmarshalResource"), p.Fn("UnmarshalPartialResource")
 	if full == nil || part == nil {
 		r.fail("anchors UnmarshalResource / UnmarshalPartialResource not found")
@@ -410,4 +413,105 @@ func checkNewType(p *Prog, r *Report, part *ssa.Function) {
 		"the new type starts with the schema type's name and no fields",
 		"the partial type is not built from scratch with only the schema type's name (it copies the whole type or its field maps): fields that are not in the payload are reported")
 	_ = token.ADD
+}
+
+// checkAddCannotFail: UnmarshalPartialResource discards the errors of
+// Type.AddAttr / Type.AddRel; that is sound only while those functions refuse
+// nothing but an empty name, an empty target type, an invalid kind or a name
+// that is already taken. Every branch outcome that guards one of their error
+// returns must be one of those tests.
+func checkAddCannotFail(p *Prog, r *Report) {
+	n := 0
+	for _, name := range []string{"(*Type).AddAttr", "(*Type).AddRel"} {
+		f := p.Fn(name)
+		if f == nil || len(f.Params) < 2 {
+			r.bad("C13.add-cannot-fail", name+":missing", "", "anchor "+name+" not found")
+			continue
+		}
+		arg := f.Params[1]
+		// field of the argument (through the spill of a by-value parameter)
+		argField := func(v ssa.Value) string {
+			base, fl, ok := fieldLoad(v)
+			if !ok {
+				return ""
+			}
+			for _, o := range origins(base) {
+				if o == ssa.Value(arg) {
+					return fl
+				}
+				if al, ok := o.(*ssa.Alloc); ok {
+					if sv := singleStore(al); sv == ssa.Value(arg) {
+						return fl
+					}
+				}
+				if ld, ok := o.(*ssa.UnOp); ok && ld.Op == token.MUL {
+					if al, ok := ld.X.(*ssa.Alloc); ok && singleStore(al) == ssa.Value(arg) {
+						return fl
+					}
+				}
+			}
+			return ""
+		}
+		nameField := map[string]bool{"Name": true, "FromName": true}
+		emptyOK := map[string]bool{"Name": true, "FromName": true, "ToType": true}
+		recognised := func(ef edgeFact) (bool, string) {
+			switch c := ef.Cond.(type) {
+			case *ssa.BinOp:
+				if c.Op != token.EQL && c.Op != token.NEQ {
+					return true, "" // ordering tests: loop bounds and the like
+				}
+				if _, isIface := c.X.Type().Underlying().(*types.Interface); isIface {
+					return true, ""
+				}
+				if isNilConst(c.X) || isNilConst(c.Y) {
+					return true, ""
+				}
+				for _, pr := range [][2]ssa.Value{{c.X, c.Y}, {c.Y, c.X}} {
+					if s, ok := constString(pr[1]); ok && s == "" {
+						if fl := argField(pr[0]); emptyOK[fl] {
+							return true, ""
+						}
+						if hc, _ := callOf(pr[0]); hc != nil {
+							if g := hc.Common().StaticCallee(); g != nil && g.Name() == "GetAttrTypeString" {
+								return true, ""
+							}
+						}
+						return false, "an emptiness test on something other than the name, the target type or the kind's spelling"
+					}
+				}
+				fx, fy := argField(c.X), argField(c.Y)
+				switch {
+				case fx != "" && fy != "":
+					return false, "a comparison between two fields of the definition itself (" + fx + ", " + fy + ")"
+				case nameField[fx] || nameField[fy]:
+					return true, "" // the name against an existing entry
+				case fx != "" || fy != "":
+					return false, "a test of the definition's field " + fx + fy
+				}
+				return true, ""
+			case *ssa.Call:
+				if g := c.Common().StaticCallee(); g != nil && g.Pkg == f.Pkg {
+					return true, "" // expanded by expandFacts where it is a predicate
+				}
+				return true, ""
+			}
+			return true, ""
+		}
+		for _, b := range f.Blocks {
+			ret, ok := b.Instrs[len(b.Instrs)-1].(*ssa.Return)
+			if !ok || len(ret.Results) != 1 || isNilConst(ret.Results[0]) {
+				continue
+			}
+			n++
+			good, why := true, ""
+			for _, ef := range expandFacts(factsAt(b)) {
+				if ok, w := recognised(ef); !ok {
+					good, why = false, w
+				}
+			}
+			r.decide(good, "C13.add-cannot-fail", funcName(f)+":"+p.describe(ret), p.pos(ret.Pos()), "refusal guarded only by empty-name / empty-type / invalid-kind / name-taken tests",
+				funcName(f)+" refuses a definition on "+why+": a field definition taken from the schema type can be refused, and UnmarshalPartialResource discards that error, so the field is silently missing from the partial resource")
+		}
+	}
+	r.floor("AddAttr/AddRel refusals", n, 5)
 }
